@@ -17,7 +17,16 @@ from fractions import Fraction as Fr
 
 sys.path.insert(0, os.path.dirname(os.path.abspath(__file__)))
 import common as C
-from common import f2h, h2f, vec2p
+from common import h2f
+
+
+def f2h(x):
+    """Input encoding: a NaN goes in as its bit pattern (the Lean driver parses hex only); outputs print `nan`."""
+    return '7ff8000000000000' if x != x else C.f2h(x)
+
+
+def vec2p(v):
+    return ' '.join([str(len(v))] + [f2h(float(x)) for x in v])
 
 EPS = 2.0 ** -52
 
@@ -28,12 +37,50 @@ EPS = 2.0 ** -52
 # (newest pair valid on J, whatever its sign) and "fails only when no pair is valid on J, q untouched" strictly,
 # for every parameter set; blocks G and H of `excluded_point_ops` are the regression scenario.
 
-# What the real code did at the excluded points of the theorems (a stored pair with ⟨y,s⟩ = 0: forced update,
-# scale_y(0), or min_div_fac < 0): reported in the evidence, see `extra_stage`.
-STATS = {'apply_on_singular_history': 0, 'apply_on_singular_history_nonfinite': 0,
-         'apply_masked_on_singular_history': 0, 'singular_pair_stored_forced': 0,
-         'singular_pair_stored_unforced_mdf_negative': 0, 'scale_y_zero': 0,
-         'apply_after_singular_pair_evicted': 0, 'masked_negative_ratio': 0}
+# Open finding (known-findings.json): `update_valid` is not the documented acceptance test (LBFGSParams doc comments
+# in lbfgs.hpp): (a) with CBFGS on and force_pos_def = false the code compares |yᵀs| with ε‖p‖^α sᵀs, the documentation
+# yᵀs (so the code stores pairs of negative curvature that the documented cautious-update condition rejects);
+# (b) the code rejects a non-finite yᵀs, which the documentation does not mention.
+KEY_DOCTEST = 'C09-update_valid-differs-from-documented-acceptance-test'
+
+# Every exemption of the monitors is counted under a name that says which hypothesis of which theorem it stands for
+# (audit-2 addendum); the counts go into the evidence (`extra_stage`).  None of them uses a number computed by the
+# code under test: they are decided from the op lines (exact rationals of the inputs).
+STATS = {
+    # --- RunOK (Props/C09.lean `OpOK`): a stored pair with ⟨y,s⟩ = 0 — the dense BFGS matrix does not exist
+    'singular_pair_stored_forced': 0,                    # OpOK: forced update with ⟨y,s⟩ = 0 (reachable in-tree:
+                                                         # StructuredLBFGSDirection::update forces, all-free branch applies)
+    'singular_pair_stored_unforced_mdf_negative': 0,     # run_goodC hypothesis 0 ≤ min_div_fac
+    'scale_y_zero': 0,                                   # OpOK: scale_y factor ≠ 0
+    'exempt_apply_RunOK_singular_pair_in_history': 0,    # apply() results exempt for that reason …
+    'exempt_apply_RunOK_singular_pair_in_history_nonfinite_result': 0,   # … of which non-finite (ρ = inf ⇒ NaN)
+    'apply_masked_on_singular_history': 0,               # NOT exempt: checked like any other
+    'apply_after_singular_pair_evicted': 0,              # NOT exempt: checked against the dense matrix again
+    # --- the carrier of the theorems is an ordered field: non-finite data are outside it
+    'nonfinite_pair_offered': 0, 'nonfinite_pair_stored_forced': 0,
+    'exempt_nonfinite_pair_in_history': 0,               # apply / apply_masked / dump on a history holding one
+    # --- IEEE rounding is not modelled: a comparison of the acceptance test within rounding of its threshold
+    'exempt_update_threshold_within_rounding': 0,
+    'exempt_masked_threshold_within_rounding': 0,
+    # --- restrictHist_curv hypothesis 0 ≤ min_div_fac: a pair *valid on J* with ⟨y,s⟩_J = 0
+    'exempt_masked_valid_pair_zero_curvature_mdf_negative': 0,
+    'masked_checked_with_mdf_negative': 0,               # NOT exempt
+    # --- classes that must occur in every run (required coverage, see REQUIRED)
+    'masked_negative_ratio': 0, 'scale_y_negative': 0, 'apply_gamma_zero': 0, 'masked_gamma_zero': 0,
+    'update_cbfgs_on': 0, 'update_force_pos_def_off': 0, 'update_rejected': 0, 'update_accepted_unforced': 0,
+    'update_forced_would_be_rejected': 0, 'wraparound': 0, 'masked_partial_J': 0, 'masked_full_J': 0,
+    'masked_pair_skipped_on_J': 0, 'masked_failed_no_valid_pair': 0, 'apply_curvature_policy': 0,
+    'apply_external_policy': 0, 'doc_vs_code_acceptance_mismatch': 0,
+}
+
+# classes the property quantifies over (properties.jsonl C09 `quantifier`) that every run must exercise; a class that
+# never occurred is reported as a broken tie (the run proves nothing about it)
+REQUIRED = ['singular_pair_stored_forced', 'scale_y_zero', 'scale_y_negative', 'apply_gamma_zero', 'masked_gamma_zero',
+            'nonfinite_pair_offered', 'nonfinite_pair_stored_forced', 'update_cbfgs_on', 'update_force_pos_def_off',
+            'update_rejected', 'update_accepted_unforced', 'update_forced_would_be_rejected', 'wraparound',
+            'masked_partial_J', 'masked_full_J', 'masked_pair_skipped_on_J', 'masked_failed_no_valid_pair',
+            'masked_negative_ratio', 'apply_curvature_policy', 'apply_external_policy',
+            'apply_after_singular_pair_evicted', 'apply_masked_on_singular_history']
 
 
 # ---------------------------------------------------------------- generation
@@ -100,6 +147,8 @@ def curvature_pair(rng, n, exact, mode):
 
 def upd_line(rng, n, exact, mode, forced, via_usy=None):
     s, y = curvature_pair(rng, n, exact, mode)
+    if mode == 'wild' and n and rng.random() < 0.04:       # non-finite s / y (inf, -inf, NaN)
+        (s if rng.random() < 0.5 else y)[rng.randrange(n)] = rng.choice([math.inf, -math.inf, math.nan])
     if via_usy is None:
         via_usy = rng.random() < 0.4
     if via_usy:
@@ -114,12 +163,12 @@ def upd_line(rng, n, exact, mode, forced, via_usy=None):
 
 
 def app_line(rng, n, exact):
-    g = rng.choice([-1.0, 0.5, 1.0, 2.0, 0.125]) if exact or rng.random() < 0.5 else abs(val(rng, False)) + 1e-3
+    g = rng.choice([-1.0, 0.5, 1.0, 2.0, 0.125, 0.0]) if exact or rng.random() < 0.5 else abs(val(rng, False)) + 1e-3
     return f'app {f2h(g)} {vec2p(vecr(rng, n, exact))}'
 
 
 def appm_line(rng, n, exact, full=None):
-    g = rng.choice([-1.0, 0.5, 1.0, 2.0])
+    g = rng.choice([-1.0, 0.5, 1.0, 2.0, 0.0])
     if full is None:
         full = rng.random() < 0.25
     if full or n == 0:
@@ -191,7 +240,8 @@ def random_sequence(rng, L, masked):
             n = rng.choice([1, 2, 3, 4])
             ops.append(f'resize {n}')
         elif k < 0.90:
-            f = rng.choice([0.5, 2.0, 4.0, 0.25]) if exact or rng.random() < 0.5 else abs(val(rng, False)) + 0.1
+            f = rng.choice([0.5, 2.0, 4.0, 0.25, -1.0, -0.5]) if exact or rng.random() < 0.5 else \
+                (abs(val(rng, False)) + 0.1) * rng.choice([1, 1, 1, -1])
             ops.append(f'scaley {f2h(f)}')
         else:
             ops.append('dump')
@@ -242,6 +292,20 @@ def excluded_point_ops():
     # H. … and with only that pair: apply and apply_masked both succeed with the negative scaling
     #    (the unrepaired code failed here *and* had modified q)
     ops += [new(3, 2, fpd=0, curv=1), usy(0, [1.0, 0.0], [-2.0, 1.0]), app(-1.0, q), appm(-1.0, q, [0, 1])]
+    # I. legal inputs the random generator only meets by chance: γ = 0 (H₀ = 0), a negative scale_y factor
+    #    (all curvatures change sign), both through apply and apply_masked
+    ops += [new(2, 2, fpd=0), usy(0, [1.0, 1.0], [1.0, 2.0]), usy(0, [1.0, 0.0], [2.0, -1.0]), app(0.0, q),
+            appm(0.0, q, [0, 1]), appm(0.0, q, [1], 0), f'scaley {f2h(-2.0)}', 'dump', app(0.5, q), app(-1.0, q),
+            appm(0.5, q, [0, 1]), appm(-1.0, q, [0])]
+    # J. non-finite s / y: un-forced → rejected by the code (isfinite(yᵀs); undocumented, finding KEY_DOCTEST);
+    #    forced → stored; then evicted by good pairs
+    INF, NAN = math.inf, math.nan
+    ops += [new(2, 2), usy(0, [INF, 0.0], [1.0, 1.0]), usy(0, [1.0, 1.0], [NAN, 1.0]), usy(0, [1.0, 0.0], [INF, 1.0]),
+            usy(1, [1.0, 0.0], [INF, 1.0]), 'dump', app(1.0, q), appm(1.0, q, [0, 1]),
+            usy(0, [1.0, 1.0], [1.0, 2.0]), usy(0, [1.0, 0.0], [2.0, -1.0]), app(-1.0, [1.0, 0.0])]
+    # K. CBFGS on, force_pos_def off, negative curvature with large |yᵀs|: the documented condition
+    #    yᵀs/sᵀs ≥ ε‖p‖^α rejects it, the code (which compares |yᵀs|) stores it (finding KEY_DOCTEST)
+    ops += [new(2, 2, ca=2.0, ce=0.25, fpd=0), usy(0, [1.0, 0.0], [-2.0, 1.0], 4.0), 'dump', app(1.0, q)]
     return ops
 
 
@@ -304,21 +368,31 @@ def fsub(a, b):
 REL = Fr(1, 2 ** 40)     # ambiguity margin (relative to the magnitude of the summed terms)
 
 
-def accept_exact(P, s, y, pTp, idxs=None):
-    """The documented acceptance test in exact arithmetic on (a coordinate subset of) s, y.
-    Returns (decision, ambiguous): `ambiguous` when a comparison is within rounding of its
-    threshold *and* the binary64 evaluation of that quantity is not exact."""
+def fdot(a, b):
+    """Eigen's left fold in binary64 (what the code evaluates)."""
+    acc = None
+    for x, z in zip(a, b):
+        acc = x * z if acc is None else acc + x * z
+    return 0.0 if acc is None else acc
+
+
+def doc_accept(P, s, y, pTp, idxs=None):
+    """The DOCUMENTED acceptance test, written from the doc comments of `LBFGSParams` / `CBFGSParams` in
+    accelerators/lbfgs.hpp (not from `update_valid`), in exact arithmetic on (a coordinate subset of) s, y:
+        min_abs_s      "Reject update if sᵀs ≤ min_abs_s."
+        force_pos_def  true:  "rejects the update if yᵀs ≤ min_div_fac · sᵀs"
+                       false: "rejecting the update if |yᵀs| ≤ min_div_fac · sᵀs"
+        cbfgs          (ϵ > 0; "Set to zero to disable")  "yᵀs / sᵀs ≥ ϵ ‖g‖^α"   — yᵀs, no absolute value.
+    Returns (decision, ambiguous, abs_case):
+      ambiguous — a comparison is within rounding of its threshold *and* the binary64 evaluation of that quantity is
+                  not exact (IEEE rounding is not modelled by the theorems);
+      abs_case  — the decision is `reject` only because the CBFGS comparison uses yᵀs rather than |yᵀs|
+                  (the point where `update_valid` is known to differ from the documentation, KEY_DOCTEST)."""
     if idxs is not None:
         s = [s[j] for j in idxs]
         y = [y[j] for j in idxs]
     yTs, sTs = xdot(y, s), xdot(s, s)
     amb = False
-
-    def fdot(a, b):                       # Eigen's left fold (what the code evaluates)
-        acc = None
-        for x, z in zip(a, b):
-            acc = x * z if acc is None else acc + x * z
-        return 0.0 if acc is None else acc
     ex_yTs = Fr(fdot(y, s)) == yTs
     ex_sTs = Fr(fdot(s, s)) == sTs
     m_yTs = Fr(0) if ex_yTs else REL * mag(y, s)
@@ -330,24 +404,46 @@ def accept_exact(P, s, y, pTp, idxs=None):
             amb = True
         return a <= b
     if cmp_le(sTs, Fr(P['mas']), m_sTs):
-        return False, amb
-    a = yTs if P['fpd'] else abs(yTs)
+        return False, amb, False
     rhs = Fr(P['mdf']) * sTs
     m_rhs = Fr(0) if (ex_sTs and Fr(P['mdf'] * float(sTs)) == rhs) else REL * abs(rhs)
-    if cmp_le(a, rhs, m_yTs + m_rhs):
-        return False, amb
+    if cmp_le(yTs if P['fpd'] else abs(yTs), rhs, m_yTs + m_rhs):
+        return False, amb, False
     if P['ce'] > 0:
-        pw = math.pow(pTp, P['ca'] / 2)
-        rhs = sTs * Fr(P['ce']) * Fr(pw)
-        exact_pw = P['ca'] in (0.0, 2.0)
+        pw = math.pow(pTp, P['ca'] / 2)                        # ‖g‖^α, g = pₙₑₓₜ, ‖g‖² = pTp
+        rhs = sTs * Fr(P['ce']) * Fr(pw)                        # yᵀs/sᵀs ≥ ϵ‖g‖^α  ⇔  yᵀs ≥ sᵀs·ϵ‖g‖^α  (sᵀs > 0 here
+        exact_pw = P['ca'] in (0.0, 2.0)                        # whenever min_abs_s ≥ 0)
         frhs = float(sTs) * P['ce'] * pw if ex_sTs else None
         m_rhs = Fr(0) if (exact_pw and frhs is not None and Fr(frhs) == rhs) else REL * abs(rhs)
-        # cbfgs_cond = a >= rhs ; rejected when a < rhs
-        if abs(a - rhs) <= m_yTs + m_rhs and (m_yTs + m_rhs) > 0:
+        if abs(abs(yTs) - rhs) <= m_yTs + m_rhs and (m_yTs + m_rhs) > 0:
             amb = True
-        if a < rhs:
-            return False, amb
-    return True, amb
+        if yTs < rhs:
+            return False, amb, (not P['fpd']) and abs(yTs) >= rhs
+    return True, amb, False
+
+
+def accept_exact(P, s, y, pTp, idxs=None):
+    """Compatibility for checks/dirs.py: (decision, ambiguous) of the test AS CODED (|yᵀs| in the CBFGS comparison),
+    i.e. the documented test plus the known deviation KEY_DOCTEST."""
+    d, amb, abs_case = doc_accept(P, s, y, pTp, idxs)
+    return (d or abs_case), amb
+
+
+def doc_accept_float(P, s, y, pTp):
+    """The same documented test evaluated literally in binary64 — used only for non-finite s / y, where exact
+    rationals do not exist (the documentation says nothing about non-finite data)."""
+    yTs, sTs = fdot(y, s), fdot(s, s)
+    if sTs <= P['mas']:
+        return False
+    if (yTs if P['fpd'] else abs(yTs)) <= P['mdf'] * sTs:
+        return False
+    if P['ce'] > 0 and not (yTs / sTs >= P['ce'] * math.pow(pTp, P['ca'] / 2)):
+        return False
+    return True
+
+
+def finite_pair(sy):
+    return all(math.isfinite(v) for v in sy[0]) and all(math.isfinite(v) for v in sy[1])
 
 
 def dense_pair(hist, n):
@@ -446,6 +542,7 @@ def push(st, s, y):
     m = st['P']['m']
     if len(st['hist']) > m:
         del st['hist'][0]
+        STATS['wraparound'] += 1
     st['ver'] += 1
 
 
@@ -479,12 +576,48 @@ def _monitor(op, out, st):
             xk = t.vec(); xn = t.vec(); pk = t.vec(); pn = t.vec()
             s = fsub(xn, xk)
             y = fsub(pn, pk) if pos else fsub(pk, pn)
-            pTp = float(xdot(pn, pn)) if P['ce'] > 0 else 0.0
+            pTp = (float(xdot(pn, pn)) if all(math.isfinite(v) for v in pn) else fdot(pn, pn)) if P['ce'] > 0 else 0.0
         else:
             forced = bool(t.nat()); pTp = t.flt(); s = t.vec(); y = t.vec()
         stored = bool(o.nat())
-        dec, amb = accept_exact(P, s, y, pTp)
-        if not (amb and not forced) and stored != (forced or dec):
+        STATS['update_cbfgs_on'] += P['ce'] > 0
+        STATS['update_force_pos_def_off'] += not P['fpd']
+        STATS['update_rejected'] += not stored
+        STATS['update_accepted_unforced'] += stored and not forced
+        if not finite_pair((s, y)) or not math.isfinite(pTp):
+            # non-finite data: outside the carrier of the theorems; `forced` must still mean stored, and the
+            # documented test (evaluated literally) is compared with what the code decided
+            STATS['nonfinite_pair_offered'] += 1
+            if forced:
+                if not stored:
+                    return 'forced update not stored'
+                STATS['nonfinite_pair_stored_forced'] += 1
+            else:
+                dec = doc_accept_float(P, s, y, pTp)
+                if stored != dec:
+                    STATS['doc_vs_code_acceptance_mismatch'] += 1
+                    return (f'pair with non-finite data stored={stored}, the documented acceptance test evaluated '
+                            f'literally gives {dec} (yᵀs={fdot(y, s)!r}, sᵀs={fdot(s, s)!r}): update_valid rejects a '
+                            'non-finite yᵀs, which the documentation does not mention', KEY_DOCTEST)
+            if stored:
+                push(st, s, y)
+            if o.tok() != '|':
+                return 'malformed output'
+            return check_tail(st, o)
+        dec, amb, abs_case = doc_accept(P, s, y, pTp)
+        STATS['update_forced_would_be_rejected'] += forced and not dec
+        if amb and not forced:
+            STATS['exempt_update_threshold_within_rounding'] += 1
+        elif stored != (forced or dec):
+            if abs_case and stored:
+                STATS['doc_vs_code_acceptance_mismatch'] += 1
+                m_ = (f'pair stored although the documented acceptance test rejects it: CBFGS on, force_pos_def off, '
+                      f'yᵀs={float(xdot(y, s))!r} < 0: documented condition yᵀs/sᵀs ≥ ϵ‖g‖^α, update_valid compares '
+                      f'|yᵀs| (sᵀs={float(xdot(s, s))!r}, pᵀp={pTp!r})', KEY_DOCTEST)
+                push(st, s, y)                      # the history the real object now has
+                if o.tok() != '|':
+                    return 'malformed output'
+                return check_tail(st, o) or m_
             return (f'pair stored={stored} but forced={forced}, documented acceptance test='
                     f'{dec} (yᵀs={float(xdot(y, s))!r}, sᵀs={float(xdot(s, s))!r})')
         if stored:
@@ -506,6 +639,7 @@ def _monitor(op, out, st):
         return check_tail(st, o)
     if kind == 'scaley':
         f = t.flt()
+        STATS['scale_y_negative'] += bool(f < 0 and st['hist'])
         if f == 0 and st['hist']:
             STATS['scale_y_zero'] += 1
             st['had_singular'] = True
@@ -515,6 +649,11 @@ def _monitor(op, out, st):
         return check_tail(st, o)
     if kind == 'dump':
         for k, (s, y) in enumerate(st['hist']):
+            if not finite_pair((s, y)):
+                s2 = o.vec(); y2 = o.vec(); o.flt()
+                if [f2h(v) for v in s2] != [f2h(v) for v in s] or [f2h(v) for v in y2] != [f2h(v) for v in y]:
+                    return f'stored pair #{k} (oldest first) differs from the forced non-finite pair offered'
+                continue
             if o.p + 1 >= len(o.t) or o.t[o.p] == '|':
                 return f'dump lists fewer than {len(st["hist"])} pairs'
             s2 = o.vec(); y2 = o.vec(); rho = o.flt()
@@ -544,13 +683,22 @@ def _monitor(op, out, st):
             if [f2h(v) for v in r] != [f2h(v) for v in q]:
                 return 'apply failed but modified q'
             return None
+        STATS['apply_curvature_policy' if (P['curv'] or g < 0) else 'apply_external_policy'] += 1
+        STATS['apply_gamma_zero'] += (g == 0 and not P['curv'])
+        if not all(finite_pair(sy) for sy in hist):
+            # a forced pair with non-finite entries is in the history: outside the carrier of the theorems
+            STATS['exempt_nonfinite_pair_in_history'] += 1
+            return None
         if any(xdot(y, s) == 0 for s, y in hist):
-            # Excluded point of the theorems (¬CurvOK): a stored pair with ⟨y,s⟩ = 0 — only a forced update,
-            # scale_y(0) or min_div_fac < 0 can produce one.  The dense BFGS matrix of this history does not
-            # exist, so the property demands nothing of the result; what the real code returns is counted and
-            # reported (ρ = 1/0 = inf ⇒ NaN).  As soon as the pair is evicted / reset, the check below is back.
-            STATS['apply_on_singular_history'] += 1
-            STATS['apply_on_singular_history_nonfinite'] += not all(math.isfinite(v) for v in r)
+            # EXEMPT by hypothesis `RunOK` of run_goodC / reachable_apply_dense (Props/C09.lean; `OpOK`: a forced
+            # update has ⟨y,s⟩ ≠ 0, scale_y factor ≠ 0; `0 ≤ min_div_fac`): a stored pair with ⟨y,s⟩ = 0.  The dense
+            # BFGS matrix of this history does not exist, so the property demands nothing of the result.  Decided
+            # from the op lines (exact ⟨y,s⟩ of the inputs), not from anything the code computed.  Counted, with the
+            # number of non-finite results (ρ = 1/0 = inf ⇒ NaN).  NOTE: reachable in-tree
+            # (StructuredLBFGSDirection::update forces every pair; its all-free branch calls apply()).
+            # As soon as the pair is evicted / reset, the check below is back.
+            STATS['exempt_apply_RunOK_singular_pair_in_history'] += 1
+            STATS['exempt_apply_RunOK_singular_pair_in_history_nonfinite_result'] += not all(math.isfinite(v) for v in r)
             return None
         if st.get('had_singular'):
             STATS['apply_after_singular_pair_evicted'] += 1
@@ -565,7 +713,7 @@ def _monitor(op, out, st):
         if P['curv'] or g < 0:
             yy = xdot(y_new, y_new)
             if yy == 0:
-                return None
+                return 'monitor self-check: newest pair has y = 0 but ⟨y,s⟩ ≠ 0'
             g0 = xdot(y_new, s_new) / yy
         else:
             g0 = Fr(g)
@@ -617,19 +765,35 @@ def _monitor(op, out, st):
         off = [j for j in range(n) if j not in Jx]
         if any(f2h(r[j]) != f2h(q[j]) for j in off):
             return f'apply_masked modified a component outside J={J}'
-        decs = [accept_exact(P, s, y, 0.0, Jx) for s, y in hist]
+        STATS['masked_full_J' if fullJ else 'masked_partial_J'] += 1
+        STATS['masked_gamma_zero'] += (g == 0 and not P['curv'])
         st['masked'] = True      # diagnostic only: apply_masked must not change what apply computes
+        if not all(finite_pair(sy) for sy in hist):
+            STATS['exempt_nonfinite_pair_in_history'] += 1
+            return None
+        decs = [doc_accept(P, s, y, 0.0, Jx)[:2] for s, y in hist]
         if any(xdot(y, s) == 0 for s, y in hist):
             STATS['apply_masked_on_singular_history'] += 1      # checked like any other history (pairs re-tested on J)
-        if any(a for _, a in decs) or P['mdf'] < 0:
+        if any(a for _, a in decs):
+            # EXEMPT: the acceptance test of some pair on J is within rounding of its threshold (IEEE rounding is
+            # not modelled by the theorems; which pairs are skipped is then not determined by the real-number test)
+            STATS['exempt_masked_threshold_within_rounding'] += 1
             return None
+        STATS['masked_pair_skipped_on_J'] += any(not d for d, _ in decs)
         sub = [([s[j] for j in Jx], [y[j] for j in Jx]) for (s, y), (d, _) in zip(hist, decs) if d]
+        if P['mdf'] < 0:
+            if any(xdot(y, s) == 0 for s, y in sub):
+                # EXEMPT by hypothesis `0 ≤ min_div_fac` of restrictHist_curv: a pair *valid on J* with ⟨y,s⟩_J = 0
+                STATS['exempt_masked_valid_pair_zero_curvature_mdf_negative'] += 1
+                return None
+            STATS['masked_checked_with_mdf_negative'] += 1
         qJ = [q[j] for j in Jx]
         neg = False
         if P['curv'] or g < 0:
             if not sub:
                 if ok or [f2h(v) for v in r] != [f2h(v) for v in q]:
                     return 'apply_masked with no pair valid on J and no external γ succeeded or modified q'
+                STATS['masked_failed_no_valid_pair'] += 1
                 return None
             # the documented initial scaling on the subset: ⟨s,y⟩_J/⟨y,y⟩_J of the newest pair valid on J
             # (what apply() uses on the full index set, negative or not)
@@ -702,19 +866,29 @@ def extra_stage_with_directions(rep, broken, exe, tier):
 
 
 def extra_stage(rep, broken, exe, tier):
-    rep.cov['c09_excluded_points'] = dict(STATS)
-    rep.note('excluded points of apply_eq_dense_bfgs / run_goodC on the real code (a stored pair with ⟨y,s⟩ = 0; the '
-             'dense BFGS matrix does not exist, the property demands nothing): '
+    rep.cov['c09_monitor_counts'] = dict(STATS)
+    ex = {k: v for k, v in STATS.items() if k.startswith('exempt_')}
+    rep.note('monitor exemptions (each tied to a named hypothesis, decided from the op lines): ' +
+             ', '.join(f'{k}={v}' for k, v in ex.items()))
+    rep.note('excluded points of apply_eq_dense_bfgs / run_goodC on the real code (hypothesis RunOK: a stored pair with '
+             '⟨y,s⟩ = 0; the dense BFGS matrix does not exist, the property demands nothing; reachable in-tree through '
+             'StructuredLBFGSDirection): '
              f'{STATS["singular_pair_stored_forced"]} forced updates and {STATS["scale_y_zero"]} scale_y(0) calls produced one, '
              f'{STATS["singular_pair_stored_unforced_mdf_negative"]} un-forced updates did (min_div_fac < 0 only); '
-             f'{STATS["apply_on_singular_history"]} apply() calls on such a history, '
-             f'{STATS["apply_on_singular_history_nonfinite"]} of them returned a non-finite vector (ρ = 1/0 = inf); '
-             f'{STATS["apply_masked_on_singular_history"]} apply_masked() calls on such a history were checked like any other '
-             '(the pair is re-tested on J and skipped); '
+             f'{STATS["exempt_apply_RunOK_singular_pair_in_history"]} apply() calls on such a history were exempt, '
+             f'{STATS["exempt_apply_RunOK_singular_pair_in_history_nonfinite_result"]} of them returned a non-finite vector '
+             f'(ρ = 1/0 = inf); {STATS["apply_masked_on_singular_history"]} apply_masked() calls on such a history were checked '
+             'like any other (the pair is re-tested on J and skipped); '
              f'{STATS["apply_after_singular_pair_evicted"]} apply() calls after the pair had been evicted / reset were checked '
              'against the dense matrix again')
     rep.note(f'{STATS["masked_negative_ratio"]} apply_masked() calls whose documented scaling (newest pair valid on J) is '
              'negative (force_pos_def = false) were checked strictly against the dense operator with that scaling')
+    rep.note(f'open finding {KEY_DOCTEST}: {STATS["doc_vs_code_acceptance_mismatch"]} updates decided differently from the '
+             'documented acceptance test')
+    missing = [k for k in REQUIRED if not STATS.get(k)]
+    rep.cov['c09_required_classes_missing'] = missing
+    if missing and exe:
+        broken.append('required coverage: the run never exercised ' + ', '.join(missing))
 
 
 if __name__ == '__main__':
@@ -744,7 +918,8 @@ if __name__ == '__main__':
         ],
         assumptions=['Eigen dot / squaredNorm are left folds under -O1 -ffp-contract=off '
                      '-DEIGEN_DONT_VECTORIZE; vectors passed to the accelerator have the size it was '
-                     'resized to; J lists distinct in-range indices',
+                     'resized to; J lists distinct in-range indices (duplicate / out-of-range indices are undefined behaviour in '
+                     'the C++ — Eigen indexing without a check — and are not generated)',
                      'min_div_fac ≥ 0; a forced update has ⟨y,s⟩ ≠ 0 and scale_y is not called with 0 (OpOK) — at '
                      'these excluded points the dense BFGS matrix does not exist, the real code stores ρ = inf and '
                      'apply() returns NaN (run and reported on every run: c09_excluded_points)'],
